@@ -480,6 +480,131 @@ def replay_switch(key):
     return False
 
 
+# ------------------------------------------------------------------ (c') backends implemented as swapped-in mixin classes (bcrypt's scheme)
+def _scratch_mixin():
+    import passlib.utils.handlers as uh
+
+    class Common(uh.SubclassBackendMixin, uh.GenericHandler):
+        name = "scratch_mixin"
+        checksum_size = 4
+        checksum_chars = "abc"
+        backends = ("a", "b", "c")
+        _backend_mixin_target = False
+        _backend_mixin_map = None
+
+    class NoBackend(Common):
+        def _calc_checksum(self, secret):
+            self._stub_requires_backend()
+            return super()._calc_checksum(secret)
+
+    class A(Common):
+        @classmethod
+        def _load_backend_mixin(mixin_cls, name, dryrun):
+            return True
+
+        def _calc_checksum(self, secret):
+            return "aaaa"
+
+    class Bb(Common):
+        @classmethod
+        def _load_backend_mixin(mixin_cls, name, dryrun):
+            return True
+
+        def _calc_checksum(self, secret):
+            return "bbbb"
+
+    class Cc(Common):
+        @classmethod
+        def _load_backend_mixin(mixin_cls, name, dryrun):
+            return False
+
+    class scratch_mixin(NoBackend, Common):
+        _backend_mixin_target = True
+        _backend_mixin_map = {None: NoBackend, "a": A, "b": Bb, "c": Cc}
+    return scratch_mixin, {"stub": NoBackend, "a": A, "b": Bb}
+
+
+def _mobs(cls, mix):
+    rec = getattr(cls, "_BackendMixin__backend", None)
+    disp = [k for k, m in mix.items() if m in cls.__bases__]
+    return rec, (disp[0] if len(disp) == 1 else repr(disp))
+
+
+def _mixin_case(st, ni, o):
+    from passlib import exc
+    S, mix = _scratch_mixin()
+    if st:
+        S.set_backend("ab"[st - 1])
+    name = NAMES[ni]
+    before = _mobs(S, mix)
+    try:
+        res = ("ret", S.set_backend(name)) if o == 0 else ("ret", S.has_backend(name)) if o == 1 else ("ret", S.get_backend())
+    except exc.MissingBackendError:
+        res = ("missing",)
+    except ValueError:
+        res = ("valueerror",)
+    after = _mobs(S, mix)
+    digest = S(use_defaults=True)._calc_checksum("x") if res[0] == "ret" and o != 1 else None
+    cur = before[0]
+    if (after[0] or "stub") != after[1]:
+        return "recorded backend %r but the class is built on the %s mixin" % (after[0], after[1])
+    if o == 1:
+        if after != before:
+            return "has_backend(%r) changed the hasher: %r -> %r" % (name, before, after)
+        want = ("valueerror",) if name == "bogus" else ("ret", name != "c")
+        return res != want and "has_backend(%r) -> %r" % (name, res)
+    if o == 2:
+        want = cur or "a"
+        return (res != ("ret", want) or after[0] != want or digest != want * 4) and "get_backend() with %r loaded -> %r, %r, digest %r" % (cur, res, after, digest)
+    if name == "bogus":
+        return (res != ("valueerror",) or after != before) and "set_backend('bogus') -> %r, %r -> %r" % (res, before, after)
+    if name == "c":
+        return (res != ("missing",) or after != before) and "set_backend of the unavailable backend -> %r, %r -> %r" % (res, before, after)
+    want = {"a": "a", "b": "b", "any": cur or "a", "default": "a"}[name]
+    return (res != ("ret", want) or after[0] != want or digest != want * 4) and \
+        "set_backend(%r) with %r loaded -> %r, state %r, digest %r (expected %r)" % (name, cur, res, after, digest, want)
+
+
+def ob_switch_mixin():
+    st, nm, op = SInt.var("st", 2), SInt.var("nm", 3), SInt.var("op", 2)
+    B = z3.And(z3.ULE(st.e, 2), z3.ULE(nm.e, 5), z3.ULE(op.e, 2))
+
+    def pick(x, n):
+        for i in range(n):
+            if bool(x == i):
+                return i
+        return n
+
+    def run():
+        sym.assume(B)
+        k = (pick(st, 2), pick(nm, 5), pick(op, 2))
+        return k, _mixin_case(*k)
+    paths = explore(run, max_paths=200)
+    for p in paths:
+        if p.exc is not None:
+            return violation("mixin-swapping backends: raises %r" % (p.exc,), "backend-switch-mixin",
+                             {"module": "harness.c03", "func": "replay_switch_mixin", "args": {}})
+        k, bad = p.result
+        if bad:
+            return violation("mixin-swapping backends, state/name/op %r: %s" % (k, bad), "backend-switch-mixin",
+                             {"module": "harness.c03", "func": "replay_switch_mixin", "args": {}})
+    r, m = sym.covers(B, paths)
+    if r != "unsat":
+        return inconclusive("paths do not cover all cases (%s)" % r)
+    return ok("backends swapped in as mixin classes (bcrypt's scheme): 3 states x 3 operations x 6 names follow the rules; has_backend "
+              "is a pure query (%d paths)" % len(paths), paths=len(paths))
+
+
+def replay_switch_mixin():
+    for st in range(3):
+        for ni in range(6):
+            for o in range(3):
+                bad = _mixin_case(st, ni, o)
+                if bad:
+                    return "state/name/op %r: %s" % ((st, ni, o), bad)
+    return False
+
+
 # ------------------------------------------------------------------ (d) the real backends on this host (finite)
 def replay_backends():
     import os
@@ -488,7 +613,8 @@ def replay_backends():
     os.environ["PASSLIB_BUILTIN_BCRYPT"] = "enabled"
     import passlib.hash as PH
     from passlib import registry
-    secrets = ["", "a", "password", "päss", "x" * 73, b"\xff\xfe\x80 not utf-8", b"\xc3\x28", "pw with space", "7bit~"]
+    secrets = ["", "a", "password", "päss", "x" * 73, b"\xff\xfe\x80 not utf-8", b"\xc3\x28", "pw with space", "7bit~", "y" * 96, "z" * 131,
+               b"\xff" * 97]
     bad = []
     for name in registry.list_crypt_handlers():
         try:
@@ -585,6 +711,7 @@ def run(tier, seed, t0, only=None):
         for mode in ("none", "tail", "echo"):
             obs.append(Ob("wrapper[%s,%s]" % (name, mode), ob_wrapper, {"name": name, "mode": mode}, timeout=1800))
     obs.append(Ob("switch", ob_switch, timeout=1800))
+    obs.append(Ob("switch-mixin", ob_switch_mixin, timeout=600))
     obs.append(Ob("host-backends", ob_backends, timeout=1800))
     if only:
         obs = [o for o in obs if only in o.name]
